@@ -3,7 +3,11 @@
 
 Transcription of `Log.reopen` (with `keep`), `Log.close`, `Log.flush`, `Log.cycle`,
 `Logger.log` (flush and cycle timers), and the START / RUN / STOP branches of the runner, for a
-logger with one `always` log (one record per run; what a record shows is C22's subject).
+logger with one log of any rule: what matters here is how many records a run writes (in one
+`file.write` call, or no call at all) — which records those are is C22's subject.  A history may
+span several **process lives** on the same directory (`reboot`: the process is killed or ends,
+fresh `Logger` / `Log` objects are built, with `reuse` on the files of the previous life, without
+it in a new directory).
 
 The file system is seen through the *primitive operations* the code performs on it, in order:
 every control appends its primitives to a trace, and the state of the files after **any prefix**
@@ -49,6 +53,11 @@ inductive Prim where
   | openA
   /-- `ocfn(paths[k], 'r'); file.close()`: trial open of a rotate copy, creating it empty if absent -/
   | touch (k : Nat)
+  /-- the process dies (kill, or exit after the files were closed): what is in the buffer is lost;
+  a new process will work on the same directory (`reuse`) -/
+  | reboot
+  /-- … a new process that makes a new, empty log directory (no `reuse`) -/
+  | newdir
 deriving DecidableEq, Repr, Inhabited
 
 structure FS where
@@ -76,6 +85,8 @@ def FS.apply (fs : FS) : Prim → FS
   | .create => { fs.setSlot 0 (some []) with buf := [], isOpen := true }
   | .openA => { fs.setSlot 0 (some (content (fs.slots 0))) with buf := [], isOpen := true }
   | .touch k => fs.setSlot k (some (content (fs.slots k)))
+  | .reboot => { fs with buf := [], isOpen := false }
+  | .newdir => {}
 
 def FS.applyAll (fs : FS) : List Prim → FS
   | [] => fs
@@ -98,6 +109,10 @@ structure Cfg where
   reuse : Bool
   /-- size in bytes of the two header lines -/
   hsize : Nat
+  /-- `Log.reopen` with fix patch D53: an existing but still *empty* main file counts as new
+  (`.first` stays true, so `prepare` writes the header).  `false` = the code before the patch
+  (`if os.path.exists(self.path): self.first = False`), kept to document the old behaviour. -/
+  emptyIsNew : Bool := true
 deriving Repr, Inhabited
 
 def lineSize (cfg : Cfg) : Line → Nat
@@ -117,9 +132,13 @@ deriving DecidableEq, Repr, Inhabited
 inductive Op where
   /-- `store.advanceStamp(d)` -/
   | advance (d : Nat)
-  /-- the writer changes the logged value: the next records are `size` bytes long -/
-  | size (n : Nat)
+  /-- what the log's action will do at the next logger run: `none` = no `file.write` call (nothing to
+  log under its rule), `some sizes` = one call writing records of these sizes (`some []` = `write("")`) -/
+  | batch (b : Option (List Nat))
   | ctl (c : Ctl)
+  /-- the process is killed (or ends after a STOP) and a new one is started: new store, new
+  `Logger` and `Log` objects, same configuration -/
+  | reboot
 deriving DecidableEq, Repr, Inhabited
 
 structure St where
@@ -142,7 +161,7 @@ structure St where
   hasPaths : Bool := false
   /-- number of records written -/
   seq : Nat := 0
-  recSize : Nat := 8
+  batch : Option (List Nat) := some [8]
 
 /-- perform primitives: on the files and onto the trace -/
 def St.emit (s : St) (ps : List Prim) : St :=
@@ -154,10 +173,17 @@ def St.flushLog (s : St) : St := if s.fs.isOpen then s.emit [.sync] else s
 /-- `Log.close`: `flush()` then `file.close()`, only when the file is open -/
 def St.closeLog (s : St) : St := if s.fs.isOpen then s.emit [.sync, .closeF] else s
 
+/-- the test that makes `Log.reopen` clear `.first`: the main file exists and (with fix D53) is not empty -/
+def St.oldFile (s : St) : Bool :=
+  match s.fs.slots 0 with
+  | some (_ :: _) => true
+  | some [] => !s.cfg.emptyIsNew
+  | none => false
+
 /-- `Log.reopen(prefix, keep)` -/
 def St.reopen (s : St) (keep : Nat) : St :=
   let s := s.closeLog
-  let s := if (s.fs.slots 0).isSome then { s with first := false } else s
+  let s := if s.oldFile then { s with first := false } else s
   let s := s.emit [.openA]
   if keep > 0 then
     { s.emit ((List.range keep).map fun k => .touch (k + 1)) with hasPaths := true }
@@ -186,9 +212,20 @@ def St.cycle (s : St) : St :=
       let s := s.emit [.create, .write [.header]]
       s.reopen 0
 
-/-- the `always` log's action: one record into the buffer -/
+/-- the records `seq, seq+1, …` with the given sizes -/
+def mkRecs (seq : Nat) : List Nat → List Rec
+  | [] => []
+  | sz :: rest => ⟨seq, sz⟩ :: mkRecs (seq + 1) rest
+
+/-- the log's action: one `file.write` call with the records its rule finds to log, or no call.
+(`.logged` stands for `log.stamp is not None`; streak / deck logs also set the stamp when they write
+nothing — that difference cannot be observed, `prepare` looks at the stamp only for a file that
+does not exist yet.) -/
 def St.writeRec (s : St) : St :=
-  { s.emit [.write [.rec_ ⟨s.seq, s.recSize⟩]] with seq := s.seq + 1, logged := true }
+  match s.batch with
+  | none => s
+  | some sizes =>
+    { s.emit [.write ((mkRecs s.seq sizes).map Line.rec_)] with seq := s.seq + sizes.length, logged := true }
 
 /-- `if (store.stamp - flushStamp) >= flushPeriod: flush(); flushStamp = store.stamp` -/
 def St.flushTimer (s : St) : St :=
@@ -216,10 +253,17 @@ def St.send (s : St) : Ctl → St
     let s := if s.cfg.keep ≠ 0 ∧ s.cfg.reuse then s.cycle else s
     { s.closeLog with status := .stopped }
 
+/-- a new process on the same configuration: with `reuse` on the surviving files, else in a new directory -/
+def St.reboot (s : St) : St :=
+  { s.emit [if s.cfg.reuse then .reboot else .newdir] with
+    stamp := 0, flushStamp := 0, cycleStamp := 0, status := .stopped, logged := false, first := true,
+    hasPaths := false }
+
 def St.step (s : St) : Op → St
   | .advance d => { s with stamp := s.stamp + d }
-  | .size n => { s with recSize := n }
+  | .batch b => { s with batch := b }
   | .ctl c => s.send c
+  | .reboot => s.reboot
 
 def St.exec (s : St) : List Op → St
   | [] => s
@@ -234,6 +278,7 @@ def proto : Status → List Op → Bool
   | _, .ctl .start :: r => proto .started r
   | st, .ctl .run :: r => (st != .stopped) && proto .running r
   | _, .ctl .stop :: r => proto .stopped r
+  | _, .reboot :: r => proto .stopped r
   | st, _ :: r => proto st r
 
 /-- `Logger.__init__`: the constructor arguments as stored (periods in units of 1/8 s) -/
@@ -256,7 +301,7 @@ def FS.view (fs : FS) (keep : Nat) : List Line := vf fs.slots (keep + 1)
 
 /-- what the primitives so far did to the record stream -/
 structure Acct where
-  /-- records written before the most recent flush, in order -/
+  /-- records written before the most recent flush (and not lost with a killed process), in order -/
   flushed : List Rec := []
   /-- records written since (still in the buffer) -/
   pend : List Rec := []
@@ -269,6 +314,8 @@ def Acct.step (a : Acct) : Prim → Acct
   | .sync => { a with flushed := a.flushed ++ a.pend, pend := [] }
   | .closeF => { a with flushed := a.flushed ++ a.pend, pend := [] }
   | .rename 0 => { a with since := [] }
+  | .reboot => { a with pend := [], since := a.since.take (a.since.length - a.pend.length) }
+  | .newdir => {}
   | _ => a
 
 def acctOf (tr : List Prim) : Acct := tr.foldl Acct.step {}
@@ -281,5 +328,19 @@ def Shape (c : List Line) : Prop := c = [] ∨ ∃ rs : List Rec, c = .header ::
 
 /-- a fresh logger on an empty directory -/
 def St.init (cfg : Cfg) : St := { cfg := cfg }
+
+/-! ## region of the known finding D53 -/
+
+/-- a process life ends while the main file exists but is still empty on disk (the header is in
+the buffer: right after the first START, or right after a rotation made the new main file).  With
+`reuse` the next life finds an existing file, sets `.first = False`, writes no header and appends
+its records to the empty file. -/
+def emptyKillOp (s : St) : Op → Bool
+  | .reboot => s.cfg.reuse && (match s.fs.slots 0 with | some [] => true | _ => false)
+  | _ => false
+
+def emptyKill : St → List Op → Bool
+  | _, [] => false
+  | s, op :: rest => emptyKillOp s op || emptyKill (s.step op) rest
 
 end Ioflo.Rotate
